@@ -26,13 +26,14 @@ from .values import (
 )
 from .errors import (
     JSError,
+    JSSyntaxError,
     JSTypeError,
     JSReferenceError,
     JSRangeError,
     MemoryLimitError,
     TimeLimitError,
 )
-from .regex import RegexTimeoutError
+from .regex import RegExpError, RegexStackOverflow, RegexTimeoutError
 
 
 def js_round(x: float, ndigits: int = 0) -> float:
@@ -1628,6 +1629,8 @@ class VM:
                 return re.test(string)
             except RegexTimeoutError:
                 raise TimeLimitError("Regex execution timeout")
+            except RegexStackOverflow:
+                raise JSRangeError("Regular expression too complex")
 
         def exec_fn(*args):
             string = to_string(args[0]) if args else ""
@@ -1635,6 +1638,8 @@ class VM:
                 return re.exec(string)
             except RegexTimeoutError:
                 raise TimeLimitError("Regex execution timeout")
+            except RegexStackOverflow:
+                raise JSRangeError("Regular expression too complex")
 
         methods = {
             "test": test_fn,
@@ -1943,6 +1948,8 @@ class VM:
                     parts.append(s[last_end:])
                 except RegexTimeoutError:
                     raise TimeLimitError("Regex execution timeout")
+                except RegexStackOverflow:
+                    raise JSRangeError("Regular expression too complex")
             elif to_string(sep) == "":
                 parts = list(s)
             else:
@@ -2053,6 +2060,8 @@ class VM:
                     return "".join(result_parts)
                 except RegexTimeoutError:
                     raise TimeLimitError("Regex execution timeout")
+                except RegexStackOverflow:
+                    raise JSRangeError("Regular expression too complex")
             else:
                 # String replace - only replace first occurrence
                 search = to_string(pattern)
@@ -2114,7 +2123,12 @@ class VM:
                     poll_callback = (
                         lambda: time.monotonic() - self.start_time > self.time_limit
                     )
-                regex_internal = InternalRegExp(to_string(pattern), "", poll_callback)
+                try:
+                    regex_internal = InternalRegExp(
+                        to_string(pattern), "", poll_callback
+                    )
+                except RegExpError as e:
+                    raise JSSyntaxError(f"Invalid regular expression: {e}")
                 is_global = False
 
             try:
@@ -2163,6 +2177,8 @@ class VM:
                     return arr
             except RegexTimeoutError:
                 raise TimeLimitError("Regex execution timeout")
+            except RegexStackOverflow:
+                raise JSRangeError("Regular expression too complex")
 
         def search(*args):
             pattern = args[0] if args else None
@@ -2180,7 +2196,12 @@ class VM:
                     poll_callback = (
                         lambda: time.monotonic() - self.start_time > self.time_limit
                     )
-                regex_internal = InternalRegExp(to_string(pattern), "", poll_callback)
+                try:
+                    regex_internal = InternalRegExp(
+                        to_string(pattern), "", poll_callback
+                    )
+                except RegExpError as e:
+                    raise JSSyntaxError(f"Invalid regular expression: {e}")
 
             try:
                 vm_regex = regex_internal._create_vm()
@@ -2188,6 +2209,8 @@ class VM:
                 return result.index if result else -1
             except RegexTimeoutError:
                 raise TimeLimitError("Regex execution timeout")
+            except RegexStackOverflow:
+                raise JSRangeError("Regular expression too complex")
 
         def toString(*args):
             return s
